@@ -169,6 +169,7 @@ structure Params where
   XO : String → List Tok → Option (List Out)   -- non-generic expanders not modelled here (important = false)
   growShrink : Tok → Option String             -- _flexGrowShrink: the number (as `%v` text)
   isBasis : Tok → Bool                         -- flexBasis([token]) != nil
+  intZero : Tok → Bool                         -- token is a pa.Number with Int() == 0
 
 /-! ## validateNonShorthand -/
 
@@ -249,17 +250,11 @@ structure FlexSt where
   shrink : Option String := none
   basis : Option Tok := none
 
-/-- is this a pa.Number whose Int() is 0 ("unitless zero")?  The representation is what the
-    tokenizer kept; the harness only generates `0`, `+0`, `-0`, `0.0`, `00`… spelled with digits 0. -/
-def isZeroNumber : Tok → Bool
-  | .num r => r.toList.all (fun c => c = '0' ∨ c = '+' ∨ c = '-' ∨ c = '.') ∧ r.toList.any (· = '0')
-  | _ => false
-
 /-- the loop of `_expandFlex` -/
 def flexLoop (P : Params) : List Tok → FlexSt → Option FlexSt
   | [], st => some st
   | t :: rest, st =>
-    let forced := isZeroNumber t && !(st.grow.isSome && st.shrink.isSome)
+    let forced := P.intZero t && !(st.grow.isSome && st.shrink.isSome)
     if st.basis.isNone && !forced && P.isBasis t then flexLoop P rest { st with basis := some t }
     else if st.grow.isNone then
       match P.growShrink t with
@@ -382,90 +377,109 @@ def preprocess (P : Params) : List Compound → List Out
   | [] => []
   | c :: rest => compoundOut P c ++ preprocess P rest
 
-/-! ## resolveVar (html/tree/style.go) -/
+/-! ## resolveVar (html/tree/style.go, resolveVarRec) -/
 
-/-- result of resolveVar: Go's `nil`, a non-nil slice, or — only in the model — `diverge`:
-    the recursion did not finish within the fuel.  The Go function has no fuel and no visited
-    set: where the model diverges for every fuel, the Go code overflows its stack. -/
-inductive Res where
-  | diverge
-  | nil
-  | toks (ts : List Tok)
-  deriving Repr, Inhabited, BEq
+/-- custom properties of the element: Go's `computed map[string]pr.RawTokens` as an association
+    list (first binding wins).  A missing key and an empty value are the same thing for the Go
+    code (`len(l) != 0`). -/
+abbrev Bindings := List (String × List Tok)
 
-/-- `for _, argument := range fn.Arguments`: direct `var(` children are replaced by their resolution
-    (a nil resolution appends nothing), everything else is kept -/
-def substArgs (f : Tok → Res) : List Tok → Option (List Tok)
-  | [] => some []
-  | t :: rest =>
-    match substArgs f rest with
+def Bindings.get (b : Bindings) (v : String) : List Tok := (b.lookup v).getD []
+
+/-- all bindings of `v` removed -/
+def Bindings.without (b : Bindings) (v : String) : Bindings := b.filter (fun p => p.1 != v)
+
+theorem Bindings.without_length_lt {b : Bindings} {v : String} {l : List Tok}
+    (h : b.lookup v = some l) : (b.without v).length < b.length := by
+  induction b with
+  | nil => simp [List.lookup] at h
+  | cons p rest ih =>
+    obtain ⟨k, x⟩ := p
+    simp only [Bindings.without, List.filter]
+    by_cases hk : v == k
+    · have : (k != v) = false := by
+        have : k = v := (beq_iff_eq.mp hk).symm
+        simp [this]
+      simp only [this]
+      exact Nat.lt_succ_of_le (List.length_filter_le _ _)
+    · have hk' : (v == k) = false := by simpa using hk
+      have hne : (k != v) = true := by
+        simp only [bne_iff_ne, ne_eq]
+        intro e; apply hk; simp [e]
+      simp only [hne, List.length_cons]
+      simp only [List.lookup, hk'] at h
+      exact Nat.succ_lt_succ (ih h)
+
+/-
+  The recursion of resolveVarRec, split in the two directions it descends:
+
+  * INTO THE TOKEN (function arguments, fallback): `resTok` / `resList` / `resFallback`, structural
+    recursion on the token; what to do with a defined custom property is the parameter `expand`;
+  * INTO THE VALUE OF A CUSTOM PROPERTY: `expandVar`, recursion on the bindings that are not being
+    substituted (`avail`): entering the value of `v` removes `v` — this is Go's `inProgress` set, and
+    it is what makes the model total on every environment, cyclic ones included.
+
+  Result `none` = Go's `nil` (token has no var()), `some ts` = a non-nil slice (possibly empty).
+-/
+mutual
+  /-- resolveVarRec(computed, token, inProgress) -/
+  def resTok (expand : String → List String → Option (List Tok)) (inProg : List String) : Tok → Option (List Tok)
+    | .fn name args =>
+      if !hasVar (.fn name args) then none
+      else if lower name ≠ "var" then
+        some [.fn name (resList expand inProg args)]
+      else
+        match parseArgs args false with
+        | some (.ident v :: _) =>
+          if inProg.contains v then some []          -- cyclic reference: cut
+          else
+            match expand v (v :: inProg) with
+            | some r => some r                        -- `source = computed[v]`, resolved
+            | none => some (resFallback expand (v :: inProg) args true)  -- `source = default_`
+        | _ => none   -- unreachable: hasVar on `var(` ⇒ the first argument is an ident
+    | _ => none       -- hasVar is false on non-functions
+  /-- `for _, x := range xs { if r := resolveVarRec(x); r != nil { append r... } else { append x } }` -/
+  def resList (expand : String → List String → Option (List Tok)) (inProg : List String) : List Tok → List Tok
+    | [] => []
+    | t :: rest =>
+      match resTok expand inProg t with
+      | some r => r ++ resList expand inProg rest
+      | none => t :: resList expand inProg rest
+  /-- the same loop over `default_ = args[1:]` of ParseFunction, walked on the RAW arguments:
+      whitespace, comments and commas are not in `args`; `first` = the name argument is still to be skipped -/
+  def resFallback (expand : String → List String → Option (List Tok)) (inProg : List String) : List Tok → Bool → List Tok
+    | [], _ => []
+    | .ws :: rest, first => resFallback expand inProg rest first
+    | .comment _ :: rest, first => resFallback expand inProg rest first
+    | .lit s :: rest, first =>
+      if s = "," then resFallback expand inProg rest first
+      else if first then resFallback expand inProg rest false
+      else .lit s :: resFallback expand inProg rest false
+    | t :: rest, first =>
+      if first then resFallback expand inProg rest false
+      else match resTok expand inProg t with
+        | some r => r ++ resFallback expand inProg rest false
+        | none => t :: resFallback expand inProg rest false
+end
+
+/-- the value of custom property `v`, resolved, when `v` is defined with a non-empty value among the
+    bindings not in progress; `none` otherwise (the caller then uses the fallback) -/
+def expandVar (avail : Bindings) : String → List String → Option (List Tok) :=
+  fun v inProg =>
+    match _h : avail.lookup v with
+    | some l => if l = [] then none else some (resList (expandVar (avail.without v)) inProg l)
     | none => none
-    | some rs =>
-      match t with
-      | .fn name _ =>
-        if lower name = "var" then
-          match f t with
-          | .diverge => none
-          | .nil => some rs
-          | .toks r => some (r ++ rs)
-        else some (t :: rs)
-      | _ => some (t :: rs)
+termination_by avail.length
+decreasing_by exact Bindings.without_length_lt _h
 
-/-- `for _, value := range source`: resolved values are spliced, others kept -/
-def resolveList (f : Tok → Res) : List Tok → Res
-  | [] => .toks []
-  | t :: rest =>
-    match resolveList f rest with
-    | .toks rs =>
-      match f t with
-      | .diverge => .diverge
-      | .nil => .toks (t :: rs)
-      | .toks r => .toks (r ++ rs)
-    | _ => .diverge
+/-- resolveVar(computed, token) -/
+def resolveVar (env : Bindings) (t : Tok) : Option (List Tok) := resTok (expandVar env) [] t
 
-/-- variable environment: Go's `computed map[string]pr.RawTokens`; a missing key is `[]`
-    (the Go code tests `len(l) != 0`) -/
-abbrev VarEnv := String → List Tok
-
-/-- resolveVar with explicit fuel -/
-def resolveVar (env : VarEnv) : Nat → Tok → Res
-  | 0, _ => .diverge
-  | n + 1, t =>
-    if !hasVar t then .nil
-    else match t with
-      | .fn name args =>
-        if lower name ≠ "var" then
-          match substArgs (resolveVar env n) args with
-          | none => .diverge
-          | some args' =>
-            let t' := Tok.fn name args'
-            match resolveVar env n t' with
-            | .diverge => .diverge
-            | .nil => .toks [t']
-            | .toks r => if r ≠ [] then .toks r else .toks [t']
-        else
-          match parseArgs args false with
-          | some (.ident v :: dflt) =>
-            let source := if env v ≠ [] then env v else dflt
-            resolveList (resolveVar env n) source
-          | _ => .nil   -- unreachable: hasVar t with name var ⇒ first argument is an ident
-      | _ => .nil       -- unreachable: hasVar is false on non-functions
-
-/-- the loop of cascadeValue over the pending raw tokens -/
-def solveTokens (f : Tok → Res) : List Tok → Option (List Tok)
-  | [] => some []
-  | t :: rest =>
-    match solveTokens f rest with
-    | none => none
-    | some rs =>
-      match f t with
-      | .diverge => none
-      | .nil => some (t :: rs)
-      | .toks r => some (r ++ rs)
+/-- the loop of cascadeValue over the pending raw tokens (the same splice loop) -/
+def solveTokens (env : Bindings) (raw : List Tok) : List Tok := resList (expandVar env) [] raw
 
 /-- outcome of the pending branch of cascadeValue -/
 inductive Pending where
-  | diverge                       -- Go: stack overflow
   | invalid (solved : List Tok)   -- invalid at computed-value time ⇒ inherited / initial value
   | valid (v : Val)
   deriving Repr, Inhabited, BEq
@@ -480,18 +494,16 @@ def expandValidatePending (P : Params) (prop : String) (from_ : String) (tokens 
     | some os => (os.find? (fun o => o.name = prop)).map (·.value)
 
 /-- cascadeValue on a pending value (`rawTokens`, `shortand`) of property `prop` -/
-def cascadePending (P : Params) (env : VarEnv) (fuel : Nat) (prop : String) (shorthand : String) (raw : List Tok) : Pending :=
-  match solveTokens (resolveVar env fuel) raw with
-  | none => .diverge
-  | some solved =>
-    if solved = [] then .invalid solved
-    else if shorthand ≠ "" then
-      match expandValidatePending P prop shorthand solved with
-      | some v => .valid v
-      | none => .invalid solved
-    else
-      match validateNonShorthand P prop solved false with
-      | some r => .valid r.2
-      | none => .invalid solved
+def cascadePending (P : Params) (env : Bindings) (prop : String) (shorthand : String) (raw : List Tok) : Pending :=
+  let solved := solveTokens env raw
+  if solved = [] then .invalid solved
+  else if shorthand ≠ "" then
+    match expandValidatePending P prop shorthand solved with
+    | some v => .valid v
+    | none => .invalid solved
+  else
+    match validateNonShorthand P prop solved false with
+    | some r => .valid r.2
+    | none => .invalid solved
 
 end WR.C08
